@@ -109,13 +109,11 @@ EXPORT int vswscanf_s(const wchar_t *restrict src, const wchar_t *restrict fmt,
     }
 
 #if defined(HAVE_WCSSTR) || !defined(SAFECLIB_DISABLE_EXTENSIONS)
-    if (unlikely((p = wcsstr((wchar_t *)fmt, L"%n")))) {
-        if ((p - fmt == 0) || *(p - 1) != L'%') {
-            invoke_safe_str_constraint_handler("vswscanf_s: illegal %n",
-                                               (void *)src, EINVAL);
-            errno = EINVAL;
-            return EOF;
-        }
+    if (unlikely((p = safec_wfmt_find_n(fmt)) != NULL)) {
+        invoke_safe_str_constraint_handler("vswscanf_s: illegal %n",
+                                           (void *)src, EINVAL);
+        errno = EINVAL;
+        return EOF;
     }
 #elif defined(HAVE_WCSCHR)
     if (unlikely((p = wcschr(fmt, flen, L'n')))) {
